@@ -281,6 +281,9 @@ func Scenarios(thorough bool) []Scenario {
 		if op == "RequestContext.Exile" {
 			continue // its effect on the same keep-alive connection is the known finding of the sequential part
 		}
+		if op == "RequestContext.SetTraceInfo(own)" {
+			continue // the handler replaces the trace info of its OWN exchange: the tracer of this part would (rightly) miss the stage events
+		}
 		out = append(out,
 			Scenario{Name: "close+probe|" + op, Conns: [][]string{{"D:" + op}, {"p"}}},
 			Scenario{Name: "keepalive-probe+probe|" + op, Conns: [][]string{{"d:" + op, "p"}, {"p"}}},
